@@ -228,18 +228,26 @@ def program(g, sim, script, check, match):
                 if isinstance(r, g['ListResponse']):
                     if b'Noselect' not in list(r.attrs):
                         got.append(r.mailbox)
-            universe = (names | {'INBOX'}) if op == 'list' else ((names & subs) | {'INBOX'})
-            for nm in sorted(universe):
+            # the statement: LIST returns exactly the existing names, LSUB exactly the subscribed ones (RFC 3501 6.3.9: a
+            # subscribed name stays in the list even if no mailbox of that name exists any more)
+            universe = (names | {'INBOX'}) if op == 'list' else set(subs)
+            for nm in sorted(universe | ({'INBOX'} if op == 'lsub' else set())):
                 listed = nm in got
-                if nm == 'INBOX':
+                tag = ''
+                if nm not in universe:
+                    exp = False
+                    tag = 'LSUB-INBOX-UNSUBSCRIBED: '
+                elif nm == 'INBOX':
                     # matched case-insensitively
                     exp = match([ord(c) for c in 'INBOX'], pat, True)
                 else:
                     exp = match([ord(c) for c in nm], pat, False)
+                    if op == 'lsub' and nm not in names:
+                        tag = 'LSUB-SUBSCRIBED-NONEXISTENT: '
                 check(exp == listed if isinstance(exp, bool) else (exp == listed),
-                      '%s %r: %r listed=%s' % (op, pat, nm, listed))
+                      '%s%s %r: %r listed=%s' % (tag, op, pat, nm, listed))
             for nm in got:
-                if nm not in universe:
+                if nm not in universe and not (op == 'lsub' and nm == 'INBOX'):
                     return '%s returned %r which does not exist / is not subscribed' % (op, nm)
         elif op == 'status':
             cond, resp = w.run(0, g['StatusCommand'](w.tag(), g['Mailbox'](a), [g['StatusAttribute'](b'MESSAGES')]))
@@ -518,8 +526,13 @@ def replay(harness, w):
         err = maildir_mapping(g, w['op'], w['exc'])
         if err:
             bad.append(err)
-    return {'violates': bool(bad), 'detail': bad[:3], 'category': (bad[0] if bad else '')[:80]}
+    return {'violates': bool(bad), 'detail': bad[:20], 'category': (bad[0] if bad else '')[:80]}
 
 
 def classify(harness, w, res):
+    det = res.get('detail') or []
+    if isinstance(det, list) and det and all(isinstance(x, str) and x.startswith('LSUB-') for x in det):
+        if any(x.startswith('LSUB-INBOX-UNSUBSCRIBED') for x in det):
+            return 'C11-lsub-inbox-always'
+        return 'C11-lsub-drops-nonexistent'
     return None
